@@ -78,6 +78,14 @@ def _reg(ch):
     return R.PLinReg()
 
 
+def _transfer(ch):
+    if ch.boolean("w", 0.5, "wrap-classifier"):
+        est, method = _clf(ch), ch.choice("w", [None, "predict", "predict_proba"], "m")
+    else:
+        est, method = _reg(ch), ch.choice("w", [None, "predict"], "m")
+    return TransferTransformer(est, method=method, copy_estimator=ch.choice("w", [True, False], "ce"), trainable=ch.choice("w", [False, True], "tr"))
+
+
 def _sk_kwargs(ch):
     """Free keyword parameters of the SkBase family.  The key set is part of
     the class schema: it is drawn once per run and shared by every instance of
@@ -151,7 +159,7 @@ FACTORIES = {
     "PredictableTSNE": lambda ch: PredictableTSNE(
         normalizer=ch.choice("w", [None, "x"], "n") and StandardScaler(), transformer=PCA(n_components=1), estimator=_reg(ch), normalize=ch.choice("w", [True, False], "nz")
     ),
-    "TransferTransformer": lambda ch: TransferTransformer(_reg(ch), method=ch.choice("w", [None, "predict"], "m"), copy_estimator=ch.choice("w", [True, False], "ce"), trainable=ch.choice("w", [False, True], "tr")),
+    "TransferTransformer": lambda ch: _transfer(ch),
     "TransformedTargetRegressor2": lambda ch: TransformedTargetRegressor2(
         regressor=ch.choice("w", [None, "x"], "r") and _reg(ch), transformer=ch.choice("w", ["log", "log1p"], "t") if ch.boolean("w", 0.7, "s") else FunctionReciprocalTransformer("log1p")
     ),
